@@ -113,8 +113,9 @@ Definition ip6_append_payload (o : nat) (b : bytes) (payload : bytes) (nh : N) :
 Definition ip6_set_payload (o : nat) (b : bytes) (n : nat) (nh : N) : bytes :=
   set_nth (o + 6) (u8 nh) (put16 (o + 4) (u16 (N.of_nat n)) b).
 
-(* layer_icmp.go:464 icmp6SendPacket.  The AppendPayload error is dropped by the code
-   (ip6 = nil), after which ip6.Src() panics. *)
+(* layer_icmp.go:464 icmp6SendPacket.  A message that does not fit the buffer: the ErrPayloadTooBig of
+   IP6.AppendPayload is returned and nothing is sent (since fix d618c5a; the error was dropped and ip6.Src()
+   panicked on the nil packet). *)
 (* len(b) > 0 && b[0] >= 133 && b[0] <= 137: a Neighbor Discovery message (RS, RA, NS, NA, Redirect) *)
 Definition nd_message (p : bytes) : bool := (133 <=? nth 0 p 0) && (nth 0 p 0 <=? 137).
 
@@ -124,7 +125,7 @@ Definition icmp6_send_packet (c : cfg) (src dst : addr) (p : bytes) (junk : byte
   let b := enc_ether junk 34525 (host_mac c) (a_mac dst) in
   let b := enc_ip6 14 b hop (a_ip src) (a_ip dst) in
   match ip6_append_payload 14 b p 58 with
-  | None => Panic
+  | None => Ok []
   | Some b =>
       if Nat.ltb (List.length p) 4 then Panic else
       let psh := icmp6_pseudo (sub b 22 16) (sub b 38 16) (N.of_nat (List.length p)) ++ p in
